@@ -189,6 +189,9 @@ func (l *AbstractListener) ConnectDirectly(conn net.Conn) bool {
 				l.Name, forward.Scheme, forward.Host, err,
 			)
 		}
+		// PipeData only closes the end opposite to the one that finished first
+		streams.TryClose(direct)
+		streams.TryClose(conn)
 		return true
 	}
 
